@@ -18,6 +18,9 @@ Rule family R10 on CodeGenerator.generate_code (def-use + path order):
      module's own import block -- behaviour is a function of the text and of the
      class's own get_fields().
 Histories across processes are not enumerated: V makes the outcome independent of them.
+
+Round 4: functions installed from a per-process table; nothing but module dunders is stored
+into the generated module.
 """
 import ast
 import builtins
